@@ -193,6 +193,15 @@ func userAddrs(n int) []sdk.AccAddress {
 	return addrs
 }
 
+// UserAddrMap returns the addresses of the model users u1..un.
+func UserAddrMap(n int) map[string]string {
+	out := map[string]string{}
+	for i, a := range userAddrs(n) {
+		out[fmt.Sprintf("u%d", i+1)] = a.String()
+	}
+	return out
+}
+
 // NewEnv starts a behaviour from its Init record.
 func (b *Base) NewEnv(init Action) (*Env, error) {
 	if init.A != "Init" {
